@@ -1070,6 +1070,18 @@ func (in *Interp) visitInstr(fr *frame, instr ssa.Instruction) continuation {
 				return kJump
 			}
 		}
+		if !c.IsConst() {
+			if oc, last := in.orChain(fr, c); last != nil {
+				// "case k1, k2, ...:" lowered to a chain of equality tests with a
+				// common target: one decision on the disjunction
+				if in.branch(oc) {
+					fr.prevBlock, fr.block = fr.block, fr.block.Succs[0]
+				} else {
+					fr.prevBlock, fr.block = last, last.Succs[1]
+				}
+				return kJump
+			}
+		}
 		succ := 1
 		if in.branch(c) {
 			succ = 0
@@ -1655,4 +1667,88 @@ func (in *Interp) targetStack() string {
 		sb.WriteString("  in " + in.callStack[i].String() + "\n")
 	}
 	return sb.String()
+}
+
+// orChain recognises the lowering of a multi-value switch case: the false
+// successor of an If consists only of another equality test whose true
+// successor is the same block (with identical phi inputs). It returns the
+// disjunction of all tests of the chain and the last block of the chain.
+func (in *Interp) orChain(fr *frame, c *Term) (*Term, *ssa.BasicBlock) {
+	b := fr.block
+	target := b.Succs[0]
+	cur := b
+	cond := c
+	for n := 0; n < 64; n++ {
+		f := cur.Succs[1]
+		if f == target || f == b || len(f.Preds) != 1 || len(f.Instrs) != 2 {
+			break
+		}
+		bo, ok := f.Instrs[0].(*ssa.BinOp)
+		if !ok || bo.Op != token.EQL {
+			break
+		}
+		iff, ok := f.Instrs[1].(*ssa.If)
+		if !ok || iff.Cond != ssa.Value(bo) || f.Succs[0] != target {
+			break
+		}
+		if refs := bo.Referrers(); refs == nil || len(*refs) != 1 {
+			break
+		}
+		if !operandReady(bo.X, f) || !operandReady(bo.Y, f) || !samePhiInputs(target, b, f) {
+			break
+		}
+		t, ok := in.binop(bo.Op, bo.X.Type(), fr.get(bo.X), fr.get(bo.Y), bo.Y.Type()).(*Term)
+		if !ok {
+			break
+		}
+		cond = in.ts.Or(cond, t)
+		cur = f
+	}
+	if cur == b {
+		return nil, nil
+	}
+	return cond, cur
+}
+
+func operandReady(v ssa.Value, blk *ssa.BasicBlock) bool {
+	if _, ok := v.(*ssa.Const); ok {
+		return true
+	}
+	if instr, ok := v.(ssa.Instruction); ok {
+		return instr.Block() != blk
+	}
+	return true // parameters, free variables, globals
+}
+
+func predIndex(blk, pred *ssa.BasicBlock) int {
+	for i, p := range blk.Preds {
+		if p == pred {
+			return i
+		}
+	}
+	return -1
+}
+
+func samePhiInputs(target, a, b *ssa.BasicBlock) bool {
+	ia, ib := predIndex(target, a), predIndex(target, b)
+	if ia < 0 || ib < 0 {
+		return false
+	}
+	for _, instr := range target.Instrs {
+		phi, ok := instr.(*ssa.Phi)
+		if !ok {
+			break
+		}
+		x, y := phi.Edges[ia], phi.Edges[ib]
+		if x == y {
+			continue
+		}
+		cx, okx := x.(*ssa.Const)
+		cy, oky := y.(*ssa.Const)
+		if okx && oky && cx.Value != nil && cy.Value != nil && types.Identical(cx.Type(), cy.Type()) && constant.Compare(cx.Value, token.EQL, cy.Value) {
+			continue
+		}
+		return false
+	}
+	return true
 }
